@@ -2,7 +2,9 @@
 //! `emit::new_span!` blocks (started at once, started after another clock reading, never started), for every combination of ok_lvl / err_lvl / err / panic_lvl and every exit path
 //! (fall-through, early return, `?`, explicit `return Err`, panic). The instrumented functions are generated
 //! (tools/gen_c05m_fixtures.py → fixtures.rs) and compiled against the CURRENT macros crate on every run.
-//! Case: (c05m FORM LVL OK ERR MAPPED PAN ENABLED EXIT (clock R…)) — see lean/EmitModel/Driver/C05.lean.
+//! Case: (c05m FORM LVL OK ERR MAPPED PAN ENABLED EXIT (clock R…) [HOLDER]) — see lean/EmitModel/Driver/C05.lean.
+//! With HOLDER the call site is one of the four runtime-generic functions of holders.rs and the runtime holds the
+//! scripted clock through that wrapper.
 
 use std::cell::RefCell;
 use std::collections::VecDeque;
@@ -13,6 +15,7 @@ use emit::{Clock, Emitter, Filter, Props};
 use hcommon::{catch, Rng, Sexp, Stream, Tier};
 
 mod fixtures;
+mod holders;
 
 pub fn streams() -> Vec<Stream> {
     vec![Stream { name: "c05m", gen, run }]
@@ -131,9 +134,10 @@ fn run(line: &str) -> String {
     (|| -> Option<String> {
         let s = Sexp::parse(line)?;
         let (tag, a) = s.as_tagged()?;
-        if tag != "c05m" || a.len() != 9 {
+        if tag != "c05m" || !(a.len() == 9 || a.len() == 10) {
             return None;
         }
+        let holder = if a.len() == 10 { Some(a[9].as_atom()?) } else { None };
         let form = a[0].as_atom()?;
         let (lvl, ok, err, mapped, pan) = (opt(&a[1])?, opt(&a[2])?, opt(&a[3])?, a[4].as_bool()?, opt(&a[5])?);
         let enabled = a[6].as_bool()?;
@@ -165,12 +169,23 @@ fn run(line: &str) -> String {
         if !matches!(form, "sync" | "async") && !matches!(exit, 0 | 3) {
             return None;
         }
+        if let Some(h) = holder {
+            // the runtime-generic call sites exist for the plain and the `ok_lvl: debug` forms only
+            let plain = matches!(form, "sync" | "async") && lvl.is_none() && err.is_none() && !mapped && pan.is_none();
+            if !plain || !(ok.is_none() || ok.as_deref() == Some("debug")) || !holders::HOLDERS.contains(&h) {
+                return None;
+            }
+        }
         ENABLED.with(|x| *x.borrow_mut() = enabled);
         CLOCK.with(|c| *c.borrow_mut() = q);
         LOG.with(|l| l.borrow_mut().clear());
-        let r = catch(|| match &e.f {
-            fixtures::Fx::Sync(f) => f(exit, 7),
-            fixtures::Fx::Async(f) => block_on(f(exit, 7)),
+        let r = catch(|| match (holder, &e.f) {
+            (Some(h), _) => match holders::run(h, form == "async", ok.is_some(), exit, 7).expect("validated") {
+                Ok(r) => r,
+                Err(fut) => block_on(fut),
+            },
+            (None, fixtures::Fx::Sync(f)) => f(exit, 7),
+            (None, fixtures::Fx::Async(f)) => block_on(f(exit, 7)),
         });
         let ret = match r {
             None => "panic".to_string(),
@@ -201,8 +216,40 @@ fn gen(rng: &mut Rng, _tier: Tier, n: usize) -> Vec<String> {
             }
         }
     }
+    // the plain and `ok_lvl: debug` forms once more per clock holder (runtime-generic call sites)
+    let held: Vec<&fixtures::Entry> =
+        table.iter().filter(|e| matches!(e.form, "sync" | "async") && e.lvl.is_none() && e.err.is_none() && !e.mapped && e.pan.is_none() && matches!(e.ok, None | Some("debug"))).collect();
+    let mut hbase = Vec::new();
+    for e in &held {
+        for h in holders::HOLDERS {
+            for exit in ["ok", "qerr", "panic"] {
+                hbase.push((*e, h, exit));
+            }
+        }
+    }
+    let line = |e: &fixtures::Entry, enabled: bool, exit: &str, clock: Vec<Sexp>, holder: Option<&str>| {
+        let mut items = vec![
+            Sexp::atom(e.form), o(e.lvl), o(e.ok), o(e.err), Sexp::bool(e.mapped), o(e.pan),
+            Sexp::bool(enabled), Sexp::atom(exit), Sexp::tagged("clock", clock),
+        ];
+        if let Some(h) = holder {
+            items.push(Sexp::atom(h));
+        }
+        Sexp::tagged("c05m", items).to_string()
+    };
+    for (e, h, exit) in &hbase {
+        out.push(line(e, true, exit, vec![Sexp::num(3), Sexp::num(8), Sexp::num(9)], Some(h)));
+    }
     let mut i = 0;
-    while out.len() < n.max(base.len()) {
+    while out.len() < n.max(base.len() + hbase.len()) {
+        // one case in five of the random part goes through a clock holder
+        if i >= base.len() && rng.chance(1, 5) {
+            let (e, h, _) = hbase[rng.usize(hbase.len())];
+            let exit = *rng.pick(&["ok", "early", "qerr", "panic", "reterr"]);
+            let clock = (0..rng.usize(4)).map(|_| if rng.chance(1, 4) { Sexp::atom("none") } else { Sexp::num(rng.below(30)) }).collect();
+            out.push(line(e, rng.chance(4, 5), exit, clock, Some(h)));
+            continue;
+        }
         let (e, enabled, exit) = base[i % base.len()];
         i += 1;
         let clock: Vec<Sexp> = if i <= base.len() {
